@@ -72,6 +72,8 @@ pub fn create_server_config_from_files<P: AsRef<Path>>(
     cert_path: P,
     key_path: P,
 ) -> Result<Arc<ServerConfig>> {
+    #[cfg(feature = "verif")]
+    crate::verif::sync_point("tls.before_cert_read");
     let cert_file = File::open(&cert_path).map_err(AnyTlsError::Io)?;
     let mut cert_reader = BufReader::new(cert_file);
     let certs = rustls_pemfile::certs(&mut cert_reader)
@@ -84,6 +86,8 @@ pub fn create_server_config_from_files<P: AsRef<Path>>(
         )));
     }
 
+    #[cfg(feature = "verif")]
+    crate::verif::sync_point("tls.between_cert_and_key");
     let key_file = File::open(&key_path).map_err(AnyTlsError::Io)?;
     let mut key_reader = BufReader::new(key_file);
     let key = rustls_pemfile::private_key(&mut key_reader)
@@ -92,6 +96,8 @@ pub fn create_server_config_from_files<P: AsRef<Path>>(
             AnyTlsError::Tls(format!("no private key found in {:?}", key_path.as_ref()))
         })?;
 
+    #[cfg(feature = "verif")]
+    crate::verif::sync_point("tls.after_key_read");
     let config = ServerConfig::builder()
         .with_no_client_auth()
         .with_single_cert(certs, key)?;
